@@ -18,7 +18,9 @@ for pid in ['C%02d' % i for i in range(1, 21)]:
         m = json.load(open(d + '/meta.json'))
         cr = m.get('check_result')
         tag = os.path.basename(d)[4:]
-        if m.get('neutralised_by'):
+        if m.get('disputed'):
+            seeds.append(tag + ':disputed')
+        elif m.get('neutralised_by'):
             seeds.append(tag + ':neutralised')
         elif cr:
             seeds.append(tag + (':caught' if cr['caught'] else ':MISSED'))
